@@ -28,11 +28,28 @@ ASSUMPTIONS = ["scores and thresholds are finite floats (or +-inf thresholds), c
                "integer-dtype score arrays compare with float thresholds as rationals"]
 
 
+import itertools
+
+_MS = [list(c) for k in range(4) for c in itertools.combinations_with_replacement([0.0, 1.0, 2.0], k)]
+# exhaustive small scope: all multisets over 3 values with <= 3+3 elements x 4 configurations
+# x easy counts in {0,1,2}^2; thresholds cover the whole induced order type
+_EXH = [(a, b, c, e) for a in range(len(_MS)) for b in range(len(_MS)) for c in range(4)
+        for e in range(9)]
+_EXH_TS = [-math.inf, -1.0, gen.down(0.0), 0.0, gen.up(0.0), 0.5, gen.down(1.0), 1.0, gen.up(1.0), 1.5,
+           gen.down(2.0), 2.0, gen.up(2.0), 3.0, math.inf]
+
+
 def n_cases(tier):
-    return 400 if tier == "quick" else 8000
+    return 400 if tier == "quick" else 30000 + len(_EXH)
 
 
 def gen_one(rng, i, tier):
+    if tier == "thorough" and i < len(_EXH):
+        a, b, c, e = _EXH[i]
+        sc, ec = gen.CFGS[c]
+        return {"stream": "exhaustive", "pos": list(_MS[a]), "neg": list(_MS[b]), "ep": e // 3, "en": e % 3,
+                "sc": sc, "ec": ec, "sorted": False, "ts": list(_EXH_TS), "shape": [len(_EXH_TS)],
+                "dtype": "float", "via": "ctor", "poslabel": 1}
     stream = "exact" if i % 2 == 0 else "generic"
     pos, neg = gen.score_sets(rng, stream)
     ep, en = gen.easy_counts(rng, stream, len(pos), len(neg))
